@@ -253,6 +253,7 @@ struct IProd {
   virtual bool OK() const = 0;
   virtual bool components_OK() const = 0;
   virtual std::string comp_rel(int k, const PPL::Congruence&) const = 0;
+  virtual std::string comp_relc(int k, const PPL::Constraint&) const = 0;
   virtual std::string dump() const = 0;
 };
 
@@ -320,6 +321,8 @@ struct ProdImpl : IProd {
   bool reduced_flag() const { return p.reduced; }
   bool OK() const { return p.OK(); }
   bool components_OK() const { return p.d1.OK() && p.d2.OK() && p.d1.space_dimension() == p.d2.space_dimension(); }
+  std::string comp_relc(int k, const PPL::Constraint& c) const { PPL::Poly_Con_Relation r = k == 1 ? p.d1.relation_with(c) : p.d2.relation_with(c);
+    return std::string(r.implies(PPL::Poly_Con_Relation::is_disjoint()) ? "D" : "") + (r.implies(PPL::Poly_Con_Relation::is_included()) ? "I" : "") + (r.implies(PPL::Poly_Con_Relation::saturates()) ? "S" : ""); }
   std::string comp_rel(int k, const PPL::Congruence& cg) const { PPL::Poly_Con_Relation r = k == 1 ? p.d1.relation_with(cg) : p.d2.relation_with(cg);
     return std::string(r.implies(PPL::Poly_Con_Relation::is_disjoint()) ? "D" : "") + (r.implies(PPL::Poly_Con_Relation::is_included()) ? "I" : ""); }
   std::string dump() const { return dump_of(p); }
@@ -920,6 +923,30 @@ std::string trigger_for(const Op& op, const std::string& clause, const Pre& pre,
 }
 // relation_with(Congruence) of a product is the disjunction of the components' answers: attribute an
 // unsound answer to a component whose own answer is unsound for its own point set (base-level defect)
+std::string kind_of_component(int k) {
+  std::string ts(k == 1 ? typeid(D1).name() : typeid(D2).name());
+  if (ts.find("Box") != std::string::npos) return "box";
+  if (ts.find("BD_Shape") != std::string::npos || ts.find("Octagonal_Shape") != std::string::npos) return "weakly_relational";
+  if (ts.find("Grid") != std::string::npos) return "grid";
+  return "";
+}
+// same for relation_with(Constraint): a component that, asked directly, gives an answer false of its own point set
+std::string constraint_trigger(int state, const CN& c) {
+  Pool2 P; replay(state, P);
+  P.p[0]->reduce();
+  Gamma gs[2]; gs[0] = P.p[0]->raw1(); gs[1] = P.p[0]->raw2();
+  for (int k = 1; k <= 2; ++k) {
+    std::string f = P.p[0]->comp_relc(k, c.ppl());
+    const Gamma& gm = gs[k - 1]; if (gm.dim > 2) continue;
+    Row r = c.row(gm.dim); Row er = r; er.k = ref::EQ;
+    std::vector<char> w = bitmap(gm);
+    for (size_t i = 0; i < w.size(); ++i) if (w[i]) { const Vec& x = WIN[gm.dim][i];
+      if ((f.find('D') != std::string::npos && ref::sat(r, x)) || (f.find('I') != std::string::npos && !ref::sat(r, x)) || (f.find('S') != std::string::npos && !ref::sat(er, x))) {
+        std::string kd = kind_of_component(k);
+        return kd.empty() ? "none" : kd + "_component_alone_answers_unsoundly"; } }
+  }
+  return "none";
+}
 std::string congruence_trigger(int state, const CGN& g) {
   Pool2 P; replay(state, P);
   P.p[0]->reduce();
@@ -952,6 +979,12 @@ std::vector<Outcome> run_once(int s, int oi, const Pre& pre) {
   Val post[2]; post[0] = val_of(*P.p[0]); post[1] = val_of(*P.p[1]);
   auto fail = [&](const std::string& clause, const std::string& obs, const std::string& exp, const std::string& det) {
     Outcome o; o.site = site_of(op); o.clause = clause; o.trigger = trigger_for(op, clause, pre, post);
+    if (clause == "relation_with:definite-answer-unsound") for (const CN& c : CONS) if (op.name == slot(op.t) + ".relation_with(" + c.str() + ")") o.trigger = constraint_trigger(s, c);
+    if (clause.find("invariant:OK()-false-on-receiver") == 0 && op.method == "concatenate_assign") {
+      // BD_Shape / Octagonal_Shape::concatenate_assign(y) with y found empty (marked empty, matrix not reset) copies y's matrix and the flag
+      if ((kind_of_component(1) == "weakly_relational" && (pre.s[1].g1.bot || ref::is_empty(pre.s[1].g1.cell))) || (kind_of_component(2) == "weakly_relational" && (pre.s[1].g2.bot || ref::is_empty(pre.s[1].g2.cell))))
+        o.trigger = "weakly_relational_component_concatenated_with_empty_operand";
+    }
     if (clause == "relation_with(congruence):definite-answer-unsound") for (const CGN& g : CGS) if (op.name == slot(op.t) + ".relation_with(" + g.str() + ")") o.trigger = congruence_trigger(s, g); o.observed = obs; o.expected = exp; o.detail = det; out.push_back(o); };
   for (int k = 0; k < 2; ++k) if (!post[k].ok && pre.s[k].ok)
     fail(std::string("invariant:OK()-false-on-") + (k == op.t ? "receiver" : "operand"), "OK() false", "OK() true", vstr(post[k]));
